@@ -21,6 +21,7 @@ ObsOK == /\ last'.exp.sent = ObsSent(Ev.obs)
          /\ last'.exp.err = Ev.obs.err
 
 TrConnUp   == IsEvent("ConnUp") /\ ConnUp(Ev.args.s, Ev.args.fresh) /\ ObsOK
+TrDisconnect == IsEvent("Disconnect") /\ Disconnect(Ev.args.s) /\ ObsOK
 TrConnDown == IsEvent("ConnDown") /\ ConnDown(Ev.args.s) /\ ObsOK
 TrLinkEv   == IsEvent("LinkEv") /\ LinkEv(Ev.args.add, Ev.args.l, Ev.args.dir) /\ ObsOK
 TrPortEv   == IsEvent("PortEv") /\ PortEv(Ev.args.s, Ev.args.p, Ev.args.k) /\ ObsOK
@@ -28,7 +29,7 @@ TrTick     == IsEvent("Tick") /\ Tick /\ ObsOK
 TrDeliver  == IsEvent("Deliver") /\ Deliver(Ev.args.s) /\ last'.exp.cfg = ToSet(Ev.obs.cfg)
 TrAdvance  == IsEvent("Advance") /\ Advance /\ last'.exp.tick = Ev.obs.tick
 
-TrNext == TrConnUp \/ TrConnDown \/ TrLinkEv \/ TrPortEv \/ TrTick \/ TrDeliver \/ TrAdvance
+TrNext == TrConnUp \/ TrDisconnect \/ TrConnDown \/ TrLinkEv \/ TrPortEv \/ TrTick \/ TrDeliver \/ TrAdvance
 TrSpec == TrInit /\ [][TrNext]_tvars
 
 Progress == TLCSet(tid, IF TLCGet(tid) < l - 1 THEN l - 1 ELSE TLCGet(tid))
